@@ -444,7 +444,10 @@ class ScaledInteger(HasUnit, DataType):
                 value = float(value)
             except Exception:
                 raise WrongTypeError(f'can not convert {shortrepr(value)} to float') from None
-        intval = int(round(value / self.scale))
+        try:
+            intval = int(round(value / self.scale))
+        except (ValueError, OverflowError):  # nan or inf
+            raise WrongTypeError(f'can not convert {shortrepr(value)} to a scaled integer') from None
         return float(intval * self.scale)   # return 'actual' value (which is more discrete than a float)
 
     def validate(self, value, previous=None):
